@@ -13,8 +13,7 @@ from . import shared_model as M
 FIXED, DYNAMIC, UNLIMITED = 0, 1, 2
 
 
-def ws(s):
-    return re.sub(r'\s+', ' ', s)
+from ..pyfront import ws  # noqa: E402,F401  (whitespace-collapsed, rename/normal-form tolerant `in`)
 
 
 def run(ctx, L, tier):
@@ -107,9 +106,23 @@ def prophy_enforcement(ctx, L):
         L.check(piece in src, 'F8.enforcement', 'prophy|D6-' + k, f.site(), 'rule D6: %s' % why, '')
     sc = pp.func('Parser._is_type_sizer_compatible')
     s = ws(unparse(sc.node))
-    L.check(inn("if typename in {type_ + width for type_ in 'ui' for width in ['8', '16', '32', '64']}: return True", s) and
-            inn('elif typename in self.typedecls and isinstance(self.typedecls[typename], model.Typedef): return self._is_type_sizer_compatible(self.typedecls[typename].type_name', s)
-            and s.rstrip().endswith('else: return False'), 'F8.enforcement', 'prophy|D6-integer-set', sc.site(),
+    from . import shared_py as P
+    L.check(P.body_is(sc, """
+                if typename in {type_ + width for type_ in 'ui' for width in ['8', '16', '32', '64']}:
+                    return True
+                elif typename in seen:
+                    return False
+                elif typename in self.typedecls and isinstance(self.typedecls[typename], model.Typedef):
+                    return self._is_type_sizer_compatible(self.typedecls[typename].type_name, seen + (typename,))
+                else:
+                    return False
+            """, """
+                if typename in {type_ + width for type_ in 'ui' for width in ['8', '16', '32', '64']}:
+                    return True
+                if typename in seen or typename not in self.typedecls or not isinstance(self.typedecls[typename], model.Typedef):
+                    return False
+                return self._is_type_sizer_compatible(self.typedecls[typename].type_name, seen + (typename,))
+            """, params=['self', 'typename', 'seen']), 'F8.enforcement', 'prophy|D6-integer-set', sc.site(),
             'a type is sizer-compatible iff it is one of the eight integer builtins or a typedef chain ending in one (float, double, '
             'byte, enums and composites are not)', s)
     # D7 duplicates
@@ -133,10 +146,19 @@ def prophy_enforcement(ctx, L):
                 'array sizes go through positive_expression', '')
     # D9
     em = pp.func('Parser.p_enum_member')
-    L.check('self._parser_check(0 <= t[3] <= 4294967295' in ws(unparse(em.node)), 'F8.enforcement', 'prophy|D9-enumerators', em.site(),
+    def range_checked(fn, operand):
+        """a _parser_check whose condition is exactly 0 <= operand <= 2**32 - 1"""
+        from . import shared_py as P
+        for c in fn.walk():
+            if isinstance(c, ast.Call) and unparse(c.func) == 'self._parser_check' and c.args:
+                if P.sem_is(fn, c.args[0], '0 <= %s <= 4294967295' % operand, ['self', 't']) or \
+                        P.sem_is(fn, c.args[0], '0 <= %s < 4294967296' % operand, ['self', 't']):
+                    return True
+        return False
+    L.check(range_checked(em, 't[3]'), 'F8.enforcement', 'prophy|D9-enumerators', em.site(),
             'rule D9: enumerator values must fit 32 bits unsigned (the runtime enum is a u32 and refuses others at import)', ws(unparse(em.node))[:200])
     um = pp.func('Parser.p_union_member')
-    L.check('self._parser_check(0 <= t[1] <= 4294967295' in ws(unparse(um.node)), 'F8.enforcement', 'prophy|D9-discriminators', um.site(),
+    L.check(range_checked(um, 't[1]'), 'F8.enforcement', 'prophy|D9-discriminators', um.site(),
             'rule D9: discriminator values must fit 32 bits unsigned', ws(unparse(um.node))[:200])
     # structural impossibilities (grammar): optional arrays/bytes, array/optional union arms, empty structs
     docs = {q: (ast.get_docstring(g.node) or '') for q in pp.funcs for g in pp.funcs[q] if q.startswith('Parser.p_')}
@@ -253,7 +275,17 @@ def check_nodes(ctx, L):
                 'C12e.check-nodes', cls + '|unknown-size', f.site(), 'types of unknown size cannot be laid out in C++ and must be refused', s)
     f = ctx.py.mod('prophyc.generators.cpp_full').func('CppFullGenerator.check_nodes')
     s = ws(unparse(f.node))
-    L.check(inn('if m.bound: if m.bound in occured: raise GenerateError(', s) and inn('else: occured.add(m.bound)', s), 'C12e.check-nodes',
+    from . import shared_py as P
+    raises = [r for r in f.walk() if isinstance(r, ast.Raise) and 'GenerateError' in unparse(r.exc) and 'bound' in unparse(r.exc)]
+    adds = [c for c in f.walk() if isinstance(c, ast.Call) and isinstance(c.func, ast.Attribute) and c.func.attr == 'add' and len(c.args) == 1
+            and unparse(c.args[0]).endswith('.bound')]
+    ok = len(raises) == 1 and len(adds) == 1
+    if ok:
+        seen_set, mem = unparse(adds[0].func.value), unparse(adds[0].args[0])
+        ok = P.knows(f, raises[0], '%s and %s in %s' % (mem, mem, seen_set), True, []) and P.knows(f, adds[0], mem, True, []) \
+            and P.knows(f, adds[0], '%s in %s' % (mem, seen_set), False, []) \
+            and any(isinstance(a, ast.Assign) and unparse(a.targets[0]) == seen_set and unparse(a.value) == 'set()' for a in f.walk())
+    L.check(ok, 'C12e.check-nodes',
             'CppFullGenerator|one-array-per-sizer', f.site(), 'the C++ full codec supports one array per sizer; more must be refused', s)
     b = ctx.py.mod('prophyc.generators.base').func('GeneratorBase.serialize')
     L.check(ws(unparse(b.node.body[0])) == 'self.check_nodes(nodes)', 'C12e.check-nodes', 'serialize|check-first', b.site(),
